@@ -40,9 +40,14 @@ func TestRaceSupplement(t *testing.T) {
 		T := NewTape(Mix(job.Seed, "C18/race", i))
 		M := 2 + T.Draw("tasks", 3)
 		sc := newSharedCodecs()
+		fo := &c18Focus{}
+		if T.Bool("focus", 0.4) {
+			fo.kind, fo.codec, fo.dtype, fo.growing = 1+T.Draw("focus.kind", 4), T.Draw("focus.codec", 6), 11+T.Draw("focus.dtype", 7), T.Bool("focus.growing", 0.5)
+			M = 3 + T.Draw("focus.tasks", 4)
+		}
 		var all [][]shareOp
 		for k := 0; k < M; k++ {
-			all = append(all, c18GenOps(T, sc, k, 1+T.Draw("nops", 3)))
+			all = append(all, c18GenOps(T, sc, k, 1+T.Draw("nops", 3), fo))
 		}
 		// Concurrent phase FIRST, on freshly created codec instances and — for the struct-mapped UDT
 		// calls — on a struct type that did not exist before this iteration: lazily filled caches are
